@@ -239,7 +239,7 @@ class Engine:
                         self.explore("VALNM" if (si + ci) % 2 else "FALSYNMB", ch, call, 1 if (si + ci) % 3 == 0 else 0)
         # P4: other node classes (Node, AnyNode, symlink mixes, value-equality and falsy classes)
         if not self.lockstep:
-            for fam in ("Node", "AnyNode", "MIX", "VALNM", "VALLM", "FALSY", "FALSYLM", "ITER"):
+            for fam in ("Node", "AnyNode", "MIX", "VALNM", "VALLM", "FALSY", "FALSYLM", "ITER", "LIST", "TUPLE"):
                 for k in (2, 3) + ((4,) if T else ()):
                     calls = list(F.all_calls(k, fam, itkinds=("list",)))
                     stride = 1 if (k < 4) else 6
